@@ -60,7 +60,20 @@ def check_history(case, ctx):
             )
         # bounds cache (anchored private state; compared when present)
         bd = getattr(det, "_bounds", None)
-        if isinstance(bd, dict):
+        known_layout = False
+        try:
+            # only the layout of the pinned tree is understood: {rounded rate: {denominator: {lb_warn, ub_warn, lb_detect, ub_detect}}}
+            known_layout = isinstance(bd, dict) and all(
+                isinstance(dd, dict) and all(isinstance(b_, dict) and {"lb_warn", "ub_warn", "lb_detect", "ub_detect"} <= set(b_) for b_ in dd.values())
+                for dd in bd.values()
+            )
+            if known_layout:
+                [(float(r), int(n)) for r, dd in bd.items() for n in dd]
+        except Exception:
+            known_layout = False
+        if not known_layout:
+            ctx.label("private-cache-not-inspected")
+        if known_layout:
             m = fk.states[0]
             got = {(float(r), int(n)) for r, dd in bd.items() for n in dd}
             if got != set(m.cache):
@@ -140,12 +153,20 @@ def check_bounds_distribution(case, ctx):
     from menelaus.concept_drift import LinearFourRates
 
     det = LinearFourRates(time_decay_factor=eta, warning_level=wl, detect_level=dl, num_mc=min(mc, 200))
+    got = None
     if hasattr(det, "_sim_bounds"):
         np.random.seed(case["seed"])
         want = lm.sim_bounds(p, N, eta, wl, dl, min(mc, 200))
         np.random.seed(case["seed"])
-        with sut(detector="LinearFourRates"):
-            got = det._sim_bounds(p, N)
+        try:
+            got = det._sim_bounds(p, N)  # private helper of the pinned tree; skipped when its interface differs
+            if not (isinstance(got, dict) and {"lb_warn", "ub_warn", "lb_detect", "ub_detect"} <= set(got)):
+                got = None
+        except Exception:
+            got = None
+    if got is None:
+        ctx.label("private-simulator-not-inspected")
+    else:
         for k_, v in zip(("lb_warn", "ub_warn", "lb_detect", "ub_detect"), want):
             if not abs(float(got[k_]) - v) <= 1e-9:
                 raise Violation("lfr-bounds-value", f"_sim_bounds(p={p}, N={N}) {k_}={got[k_]}, expected {v} under the same seed", detector="LinearFourRates")
